@@ -689,6 +689,15 @@ func ruleGR6(c *Ctx) *rule {
 		}
 	} else if x, ok := rl.recv.(*ssa.IndexAddr); ok {
 		ia = x
+	} else {
+		// a value receiver: the element itself (a load of &S[idx]), possibly through a local copy
+		for _, o := range origins(rl.recv) {
+			if u, ok := o.(*ssa.UnOp); ok && u.Op == token.MUL {
+				if x, ok := u.X.(*ssa.IndexAddr); ok {
+					ia = x
+				}
+			}
+		}
 	}
 	if ia == nil {
 		r.undecided(key, c.ipos(rl.X), "the iterated task is not an element of a slice indexed by the loop")
